@@ -196,7 +196,7 @@ func leafRecords(text string) string {
 func noModel() bool { return os.Getenv("C06_NOMODEL") == "1" }
 
 func (prop) Run(c core.Case) core.Outcome {
-	if c.Op != "c06" && c.Op != "c06big" && c.Op != "c06bigsec" {
+	if c.Op != "c06" && c.Op != "c06big" && c.Op != "c06bigsec" && c.Op != "c06seq" {
 		panic("c06: unknown op " + c.Op)
 	}
 	// (the case itself is what a replay file stores: its arguments are not touched)
@@ -207,9 +207,15 @@ func (prop) Run(c core.Case) core.Outcome {
 	c = core.Case{Kind: c.Kind, Op: c.Op, Args: args}
 	var x []byte
 	var ops []ue.Op
-	bigsec := c.Op == "c06bigsec"
+	seq := c.Op == "c06seq"
+	bigsec := c.Op == "c06bigsec" || seq // (both: image built here, judged by the Go reader, no model comparison)
 	bigNote := ""
-	if bigsec {
+	if seq {
+		// round 3 (ffs3seq.go): a sequence of top-level volumes, 16 MiB objects in those that are FFSv3 already; no edit
+		x, c.Args["exp0"] = buildSeq(c.Args)
+		c.Args["exp1"] = c.Args["exp0"]
+		c.Args["oracle_only"] = "1"
+	} else if bigsec {
 		// the image is built here from the parameters (bigsec.go): 16 MiB of PRNG output inside a compressed section
 		x, ops, c.Args["exp0"], c.Args["exp1"], bigNote = buildBigSec(parseBigSpec(c.Args))
 		c.Args["oracle_only"] = "1"
@@ -368,7 +374,9 @@ func (prop) Run(c core.Case) core.Outcome {
 	if big {
 		out.Class = "ok:big:" + c.Args["shape"] + ":" + ffs3Text(res.vols1)
 	}
-	if bigsec {
+	if seq {
+		out.Class = "ok:ffs3seq:" + c.Args["vols"] + ":" + ffs3Text(res.vols1)
+	} else if bigsec {
 		// what the case reached: the form of the compressed section the save wrote and how far its size is from the boundary
 		out.Class = "ok:bigsec:" + c.Args["codec"] + ":" + c.Args["at"] + ":" + savedCompForm(res.tree1) + ":" + bigNote
 	}
@@ -393,6 +401,7 @@ func (prop) Gen(r *rand.Rand, tier string) []core.Case {
 		cs = append(cs, x86Cases(rx, 24, 0)...)
 	}
 	cs = append(cs, bigSecCases(tier, rb)...)
+	cs = append(cs, seqCases(tier)...) // round 3: the FFSv3 request across a sequence of volumes (no PRNG)
 	cs = append(cs, generate(r, n)...)
 	if tier == "thorough" {
 		cs = append(cs, bigSecSlowCases(rb)...)
